@@ -7,6 +7,7 @@ from __future__ import annotations
 
 from vf.gen import p1_gen, splits
 from vf.mon import p1_mon
+from vf.ref import p1_ref
 
 ID = "C05"
 LEVEL = "exploration"
@@ -26,6 +27,9 @@ def plan(tier: str, seed: int) -> list[dict]:
     return [{"kind": "gen", "n": N_STREAMS[tier]} for _ in range(16)]
 
 
+STATS: dict = {}
+
+
 def make_stream(rng):
     ids = p1_gen.IdSource(rng)
     n = rng.choice((2, 3, 5, 10, 20, 50, 100, 200, 400))
@@ -35,11 +39,41 @@ def make_stream(rng):
         t = p1_gen.Template(rng, rng.choice((0, 1, 3, 6, 12, 30)), checksum=rng.choice(("correct", "correct", None)))
         sent = [t.make(ids) for _ in range(n)]
         template_len = len(sent[0])
+        if rng.random() < 0.4:
+            # a meter repeats its identification line for ever - until another meter answers on the same line (multiplexer, replacement):
+            # a run with one identification line, then readouts with another one, possibly the first one again in between
+            t2 = p1_gen.Template(rng, rng.choice((0, 1, 3, 6)), checksum=rng.choice(("correct", None)))
+            tail = []
+            for k in range(rng.choice((1, 2, 3, 5, 8))):
+                tail.append(t2.make(ids))
+                if rng.random() < 0.3:
+                    tail.append(t.make(ids))
+            sent += tail
+            template_len = None
     else:
         if n > 100:
             n = rng.choice((100, 150))
         for _ in range(n):
-            sent.append(p1_gen.strict_readout(rng, ids, checksum=rng.choice(("correct", "correct", "correct", None))))
+            # (one in twelve carries no id line: with no data lines and no blank line after the identification line its data block is empty)
+            sent.append(p1_gen.strict_readout(rng, ids if rng.random() < 0.92 else None, checksum=rng.choice(("correct", "correct", "correct", None))))
+    if rng.random() < 0.04:
+        # two different readouts of equal length that CRC-32 cannot tell apart (no checksum line: all bytes are free), one after the other
+        import zlib
+
+        from vf.gen import collide
+
+        ident = p1_ref.strict_ident(rng)[0]
+        pre = ident + b"\r\n\r\n1-0:1.8.0("
+        post = b"*kWh)\r\n!\r\n"
+        base = zlib.crc32(pre)
+        salt = rng.randrange(10**9)
+        pair = collide.birthday(lambda i: b"%010d" % ((i * 2654435761 + salt) % 10**10), digest=lambda v: zlib.crc32(v + post, base))
+        if pair is not None:
+            a, b = (b"%010d" % ((i * 2654435761 + salt) % 10**10) for i in pair)
+            pos = rng.randrange(len(sent) + 1)
+            sent[pos:pos] = [pre + a + post, pre + b + post, pre + a + post]
+            template_len = None
+            STATS["streams_with_a_crc32_colliding_readout_pair"] = STATS.get("streams_with_a_crc32_colliding_readout_pair", 0) + 1
     lead = b""
     if rng.random() < 0.4:
         other = p1_gen.strict_readout(rng, ids, rng.choice((1, 5, 20)))
@@ -153,6 +187,9 @@ def run(shard: dict, ctx) -> None:
         rng = ctx.rng("c05", i)
         ctx.regen = {"shard": shard["index"], "i": i, "seed": ctx.seed}
         lead, sent, L = make_stream(rng)
+        for k, v in STATS.items():
+            ctx.count(k, v)
+        STATS.clear()
         total = len(lead) + sum(map(len, sent))
         specs = specs_for(rng, total, len(lead), L)
         for spec in specs:
